@@ -117,6 +117,13 @@ def job_continuum(cfg):
         nodes = np.array(sorted(set(fn.tolist()) | set(stray)))
     else:
         nodes = fn
+    if load == "surf_nodal":
+        # the order in which the user lists the nodes (and the matching values) must not matter: seed-drawn, never ascending
+        rng = np.random.default_rng(harness.seed() + 5)
+        perm = rng.permutation(len(nodes))
+        if len(nodes) > 1 and np.all(np.diff(nodes[perm]) > 0):
+            perm = perm[::-1]
+        nodes = nodes[perm]
     unknown = "x" if sim == "elastic" else "t"
     comp = 0
     thick_factor = (t if dim == 2 else 1)
